@@ -218,7 +218,7 @@ func TestC12(t *testing.T) {
 		programs = append(programs, p)
 	}
 
-	n := vh.N(220, 6000)
+	n := vh.N(160, 6000)
 	c02 := knownAvoid("C02")
 
 	for i := 0; i < n; i++ {
@@ -230,7 +230,7 @@ func TestC12(t *testing.T) {
 		programs = append(programs, progCase{ID: fmt.Sprintf("mygen/%d", i), Src: p.Src, Origin: "mygen", Features: p.Features})
 	}
 
-	for i, p := range sharedPrograms(rng, vh.N(120, 4000), false, union(avoid, only(c02, keyBreakInSwitch, keyContinueInSwitchInit))) {
+	for i, p := range sharedPrograms(rng, vh.N(80, 4000), false, union(avoid, only(c02, keyBreakInSwitch, keyContinueInSwitchInit, keyContinueInSwitchTagless))) {
 		p.ID = fmt.Sprintf("gen/%d", i)
 		programs = append(programs, p)
 	}
@@ -238,7 +238,7 @@ func TestC12(t *testing.T) {
 	c12Programs(t, r, programs, cfg, avoid)
 
 	files, _ := corpusFiles(t)
-	nf := vh.N(25, len(files))
+	nf := vh.N(18, len(files))
 
 	if nf > len(files) {
 		nf = len(files)
@@ -522,12 +522,12 @@ func TestC12CLI(t *testing.T) {
 		programs = append(programs, p)
 	}
 
-	for i := 0; i < vh.N(6, 150); i++ {
+	for i := 0; i < vh.N(5, 150); i++ {
 		p := newProgram(rng, gOpts{Avoid: c02, MaxStmts: 8})
 		programs = append(programs, progCase{ID: fmt.Sprintf("mygen/%d", i), Src: p.Src, Origin: "mygen"})
 	}
 
-	for i, p := range sharedPrograms(rng, vh.N(4, 100), false, union(avoid, only(c02, keyBreakInSwitch, keyContinueInSwitchInit))) {
+	for i, p := range sharedPrograms(rng, vh.N(3, 100), false, union(avoid, only(c02, keyBreakInSwitch, keyContinueInSwitchInit, keyContinueInSwitchTagless))) {
 		p.ID = fmt.Sprintf("gen/%d", i)
 		programs = append(programs, p)
 	}
